@@ -1,4 +1,4 @@
-* exhaustive: chain length <= 2 (heights 0 and 1), 4 shapes per head, 1 block verified ahead
+\* exhaustive: chain length <= 2 (heights 0 and 1), 4 shapes per head, 1 block verified ahead
 CONSTANTS
   Versions <- MCVersions
   Committed <- MCCommitted
